@@ -46,7 +46,10 @@ type c10case struct {
 	Ops    []op      `json:"ops"`
 	Rounds uint32    `json:"rounds"` // bit i set: an aggregation round after operation i (deterministic explorer)
 	Timer  bool      `json:"timer,omitempty"`
-	Gated  bool      `json:"gated,omitempty"` // gated-writer explorer: the last op is a removal issued while the sender is held inside the write of the round that carries its announcement
+	// HashTwin (sessions without add-path): path 2 differs from path 0 only in how the AS_PATH is cut into segments
+	// ([a b] vs [a][b]) instead of in ATOMIC_AGGREGATE - the two have the same path hash but are different paths
+	HashTwin bool `json:"hash_twin,omitempty"`
+	Gated    bool `json:"gated,omitempty"` // gated-writer explorer: the last op is a removal issued while the sender is held inside the write of the round that carries its announcement
 }
 
 const localASN = 64999
@@ -62,6 +65,10 @@ func pathSpec(c *c10case, i int) bgpx.PathSpec {
 		p.Atomic = true
 		p.Source = 0x0a0a0a00
 		p.ASPath = []bgpx.Seg{{T: 2, A: []uint32{65101, 65200}}}
+		if c.HashTwin {
+			p.Atomic = false
+			p.ASPath = []bgpx.Seg{{T: 2, A: []uint32{65101}}, {T: 2, A: []uint32{65200}}}
+		}
 	}
 	p.Comms = []uint32{0x00640000 + uint32(id)}
 	if s.V6 {
@@ -85,7 +92,7 @@ func projWire(pa *wire.PathAttrs) string {
 	if len(pa.Communities) > 0 {
 		id = pa.Communities[0]
 	}
-	return fmt.Sprintf("id=%x atomic=%v", id, pa.AtomicAggregate)
+	return fmt.Sprintf("id=%x atomic=%v segments=%d", id, pa.AtomicAggregate, len(pa.ASPath))
 }
 
 func projBio(p *route.Path) string {
@@ -93,7 +100,11 @@ func projBio(p *route.Path) string {
 	if p.BGPPath.Communities != nil && len(*p.BGPPath.Communities) > 0 {
 		id = (*p.BGPPath.Communities)[0]
 	}
-	return fmt.Sprintf("id=%x atomic=%v", id, p.BGPPath.BGPPathA.AtomicAggregate)
+	nseg := 0
+	if p.BGPPath.ASPath != nil {
+		nseg = len(*p.BGPPath.ASPath)
+	}
+	return fmt.Sprintf("id=%x atomic=%v segments=%d", id, p.BGPPath.BGPPathA.AtomicAggregate, nseg)
 }
 
 type rig struct {
@@ -456,7 +467,7 @@ func kinds(all bool) []c10case {
 func main() {
 	vf.Main("C10", "exploration", func(r *vf.Run) {
 		bgpx.Quiet()
-		r.Rule("universe: 2 prefixes x 3 paths (unique community as id; without add-path the third path is a twin of the first differing only in ATOMIC_AGGREGATE), operations AddPath/RemovePath on a real Adj-RIB-Out whose client is the real update sender; session kinds {IPv4, IPv6-MP} x add-path on/off x {plain iBGP, eBGP to a route-server client} (the kinds in which the Adj-RIB-Out stores paths unmodified). Histories are well-formed (a path is removed only while advertised and added only while not; without add-path an addition replaces the prefix's path). Deterministic explorer: ALL well-formed histories of length 1..4 (quick; 1..5 thorough; IPv4 kinds) and PRNG histories of length 5..7 (all kinds), each under EVERY placement of aggregation rounds between operations (2^len placements, round = EndOfRIB()), final drain, then replay(UPDATE stream) == AdjRIBOut.Dump(). Real-timer explorer: sender started with its 5 ms ticker, PRNG histories with delays of 0..8 ms, drained by VerifPending()==0 + Destroy(). distinct_nontrivial = (history, placement) pairs in which a withdrawal was written while an announcement of the same prefix was still queued (measured through the queue hook at the moment of the operation)")
+		r.Rule("universe: 2 prefixes x 3 paths (unique community as id; without add-path the third path is a twin of the first differing only in ATOMIC_AGGREGATE or, in the hash-twin variant, only in how the AS_PATH is cut into segments, so that both have the same path hash), operations AddPath/RemovePath on a real Adj-RIB-Out whose client is the real update sender; session kinds {IPv4, IPv6-MP} x add-path on/off x {plain iBGP, eBGP to a route-server client} (the kinds in which the Adj-RIB-Out stores paths unmodified). Histories are well-formed (a path is removed only while advertised and added only while not; without add-path an addition replaces the prefix's path). Deterministic explorer: ALL well-formed histories of length 1..4 (quick; 1..5 thorough; IPv4 kinds) and PRNG histories of length 5..7 (all kinds), each under EVERY placement of aggregation rounds between operations (2^len placements, round = EndOfRIB()), final drain, then replay(UPDATE stream) == AdjRIBOut.Dump(). Real-timer explorer: sender started with its 5 ms ticker, PRNG histories with delays of 0..8 ms, drained by VerifPending()==0 + Destroy(). distinct_nontrivial = (history, placement) pairs in which a withdrawal was written while an announcement of the same prefix was still queued (measured through the queue hook at the moment of the operation)")
 		r.Assume("the projection compared per (prefix, path id) is the unique community plus the ATOMIC_AGGREGATE flag", "End-of-RIB markers and UPDATEs without NLRI change nothing in the replayed view", "a withdrawal of a route the peer does not hold is ignored by the replay")
 		r.NonDeterministic("view-mismatch-realtime")
 		var vmu sync.Mutex
@@ -522,6 +533,11 @@ func main() {
 					h++
 					idx := fmt.Sprintf("e%d/%d", l, h)
 					jobs = append(jobs, func() { runAll(k, ops, idx) })
+					if !k.Sess.AddPath {
+						kt := k
+						kt.HashTwin = true
+						jobs = append(jobs, func() { runAll(kt, ops, idx+"/hash-twin") })
+					}
 				})
 			}
 		}
@@ -533,6 +549,7 @@ func main() {
 			jobs = append(jobs, func() {
 				rng := r.RandN("c10-det", i)
 				k := ks[i%len(ks)]
+				k.HashTwin = !k.Sess.AddPath && (i/len(ks))%2 == 1
 				runAll(k, randHist(rng, k.Sess.AddPath, 5+rng.IntN(3)), fmt.Sprintf("r%d", i))
 			})
 		}
